@@ -54,8 +54,8 @@ theorem drawPixel_wf (c : Canvas) (x y : Int) (col : Bool) (h : c.WF) : (drawPix
   rw [drawPixel_geo, drawPixel_len]; exact h
 
 /-- **Exact effect of `DrawPixel`** on every stored bit (padding bits included). -/
-theorem drawPixel_exact (c : Canvas) (hwf : c.WF) (x y : Int) (col : Bool) (X' Y' : Nat)
-    (hX' : X' < c.geo.wib * 8) (hY' : Y' < c.geo.H) :
+theorem drawPixel_exact' (c : Canvas) (hwf : c.WF) (x y : Int) (col : Bool) (X' Y' : Nat)
+    (hX' : X' < c.geo.wib * 8) :
     getPx (drawPixel c x y col) X' Y' =
       if inClip c.geo (x + c.geo.bx) (y + c.geo.byy) ∧ (X' : Int) = x + c.geo.bx ∧ (Y' : Int) = y + c.geo.byy
       then (col != c.geo.inv) else getPx c X' Y' := by
@@ -80,7 +80,7 @@ theorem drawPixel_exact (c : Canvas) (hwf : c.WF) (x y : Int) (col : Bool) (X' Y
       rw [htd]; simp
     have hX8 : X / 8 < c.geo.wib := by omega
     have hlt : Y * c.geo.wib + X / 8 < c.bytes.size := by
-      rw [hl]
+      refine Nat.lt_of_lt_of_le ?_ hl
       calc Y * c.geo.wib + X / 8 < Y * c.geo.wib + c.geo.wib := by omega
         _ = (Y + 1) * c.geo.wib := by rw [Nat.add_mul]; simp
         _ ≤ c.geo.H * c.geo.wib := Nat.mul_le_mul_right _ (by omega)
@@ -118,6 +118,44 @@ theorem drawPixel_exact (c : Canvas) (hwf : c.WF) (x y : Int) (col : Bool) (X' Y
         ← Array.getD_eq_getD_getElem?]
   · rw [if_neg hc]; simp [hc]
 
+theorem drawPixel_exact (c : Canvas) (hwf : c.WF) (x y : Int) (col : Bool) (X' Y' : Nat)
+    (hX' : X' < c.geo.wib * 8) (_hY' : Y' < c.geo.H) :
+    getPx (drawPixel c x y col) X' Y' =
+      if inClip c.geo (x + c.geo.bx) (y + c.geo.byy) ∧ (X' : Int) = x + c.geo.bx ∧ (Y' : Int) = y + c.geo.byy
+      then (col != c.geo.inv) else getPx c X' Y' := drawPixel_exact' c hwf x y col X' Y' hX'
+
+/-- bytes beyond the `wib·H` bytes of the canvas rows (a longer slice installed by `CreateFromBytes`) are never written -/
+theorem drawPixel_tail (c : Canvas) (hwf : c.WF) (x y : Int) (col : Bool) (i : Nat) (hi : c.geo.wib * c.geo.H ≤ i) :
+    (drawPixel c x y col).bytes[i]? = c.bytes[i]? := by
+  have hw := hwf.1
+  unfold drawPixel
+  simp only []
+  split
+  · rename_i hc
+    obtain ⟨hX0, hY0, hXW, hYH⟩ := inClip_bounds hc
+    split
+    · generalize x + c.geo.bx = Xi at *
+      generalize y + c.geo.byy = Yi at *
+      obtain ⟨X, hX⟩ := Int.eq_ofNat_of_zero_le hX0
+      obtain ⟨Y, hY⟩ := Int.eq_ofNat_of_zero_le hY0
+      subst hX hY
+      have htd : (X : Int).tdiv 8 = ((X / 8 : Nat) : Int) := by
+        rw [Int.tdiv_eq_ediv_of_nonneg (by omega)]; rfl
+      have hidx : ((Y : Int) * c.geo.wib + (X:Int).tdiv 8).toNat = Y * c.geo.wib + X / 8 := by
+        rw [htd]; omega
+      rw [hidx]
+      have hlt : Y * c.geo.wib + X / 8 < c.geo.wib * c.geo.H := by
+        have hYH : Y < c.geo.H := by omega
+        have hX8 : X / 8 < c.geo.wib := by omega
+        calc Y * c.geo.wib + X / 8 < Y * c.geo.wib + c.geo.wib := by omega
+          _ = (Y + 1) * c.geo.wib := by rw [Nat.add_mul]; simp
+          _ ≤ c.geo.H * c.geo.wib := Nat.mul_le_mul_right _ (by omega)
+          _ = c.geo.wib * c.geo.H := Nat.mul_comm _ _
+      have hne : Y * c.geo.wib + X / 8 ≠ i := by omega
+      simp only [Array.getElem?_setIfInBounds_ne hne]
+    · rfl
+  · rfl
+
 /-! ## Touch / Paint -/
 
 /-- stored-bit region predicate -/
@@ -127,22 +165,28 @@ structure Touch (R : Region) (c c' : Canvas) : Prop where
   wf : c'.WF
   geo : c'.geo = c.geo
   same : ∀ X Y, X < c.geo.wib * 8 → Y < c.geo.H → ¬ R X Y → getPx c' X Y = getPx c X Y
+  /-- the buffer keeps its size … -/
+  size : c'.bytes.size = c.bytes.size
+  /-- … and bytes beyond the `wib·H` row bytes (longer slice from `CreateFromBytes`) keep their value -/
+  tail : ∀ i, c.geo.wib * c.geo.H ≤ i → c'.bytes[i]? = c.bytes[i]?
 
 structure Paint (R : Region) (v : Bool) (c c' : Canvas) : Prop extends Touch R c c' where
   inside : ∀ X Y, X < c.geo.wib * 8 → Y < c.geo.H → R X Y → getPx c' X Y = v
 
-theorem Touch.refl (R : Region) (c : Canvas) (h : c.WF) : Touch R c c := ⟨h, rfl, fun _ _ _ _ _ => rfl⟩
+theorem Touch.refl (R : Region) (c : Canvas) (h : c.WF) : Touch R c c :=
+  ⟨h, rfl, fun _ _ _ _ _ => rfl, rfl, fun _ _ => rfl⟩
 
 theorem Touch.mono {R R' : Region} {c c' : Canvas} (h : Touch R c c') (hsub : ∀ X Y, R X Y → R' X Y) :
-    Touch R' c c' := ⟨h.wf, h.geo, fun X Y hX hY hn => h.same X Y hX hY (fun hr => hn (hsub X Y hr))⟩
+    Touch R' c c' := ⟨h.wf, h.geo, fun X Y hX hY hn => h.same X Y hX hY (fun hr => hn (hsub X Y hr)), h.size, h.tail⟩
 
 theorem Touch.trans {R : Region} {a b c : Canvas} (h1 : Touch R a b) (h2 : Touch R b c) : Touch R a c :=
   ⟨h2.wf, h2.geo.trans h1.geo, fun X Y hX hY hn => by
-    rw [h2.same X Y (by rw [h1.geo]; exact hX) (by rw [h1.geo]; exact hY) hn, h1.same X Y hX hY hn]⟩
+    rw [h2.same X Y (by rw [h1.geo]; exact hX) (by rw [h1.geo]; exact hY) hn, h1.same X Y hX hY hn],
+    h2.size.trans h1.size,
+    fun i hi => by rw [h2.tail i (by rw [h1.geo]; exact hi), h1.tail i hi]⟩
 
-theorem Touch.len {R : Region} {c c' : Canvas} (h : Touch R c c') (hc : c.WF) :
-    c'.bytes.size = c.bytes.size := by
-  have := h.wf.2; rw [h.geo] at this; rw [this, hc.2]
+theorem Touch.len {R : Region} {c c' : Canvas} (h : Touch R c c') (_hc : c.WF) :
+    c'.bytes.size = c.bytes.size := h.size
 
 theorem Paint.refl_empty (v : Bool) (c : Canvas) (h : c.WF) : Paint (fun _ _ => False) v c c :=
   { Touch.refl _ c h with inside := fun _ _ _ _ hf => hf.elim }
@@ -152,6 +196,8 @@ theorem Paint.seq {R R' : Region} {v : Bool} {a b c : Canvas} (h1 : Paint R v a 
     Paint (fun X Y => R X Y ∨ R' X Y) v a c where
   wf := h2.wf
   geo := h2.geo.trans h1.geo
+  size := h2.size.trans h1.size
+  tail := fun i hi => by rw [h2.tail i (by rw [h1.geo]; exact hi), h1.tail i hi]
   same := fun X Y hX hY hn => by
     have hX' : X < b.geo.wib * 8 := by rw [h1.geo]; exact hX
     have hY' : Y < b.geo.H := by rw [h1.geo]; exact hY
@@ -170,6 +216,8 @@ theorem Paint.congr {R R' : Region} {v : Bool} {a b : Canvas} (h : Paint R v a b
     (hiff : ∀ X Y, R X Y ↔ R' X Y) : Paint R' v a b where
   wf := h.wf
   geo := h.geo
+  size := h.size
+  tail := h.tail
   same := fun X Y hX hY hn => h.same X Y hX hY (fun hr => hn ((hiff X Y).1 hr))
   inside := fun X Y hX hY hr => h.inside X Y hX hY ((hiff X Y).2 hr)
 
@@ -182,6 +230,8 @@ theorem drawPixel_paint (c : Canvas) (hwf : c.WF) (x y : Int) (col : Bool) :
       (col != c.geo.inv) c (drawPixel c x y col) where
   wf := drawPixel_wf c x y col hwf
   geo := drawPixel_geo c x y col
+  size := drawPixel_len c x y col
+  tail := drawPixel_tail c hwf x y col
   same := fun X Y hX hY hn => by
     rw [drawPixel_exact c hwf x y col X Y hX hY]
     split
